@@ -20,7 +20,7 @@
   * per call   — what one C function does on an arbitrary world (c11_only_available,
                  _dispatch_running, _lc_min, _rr_fair, _hash_max, _connect_failure_disables,
                  _reenable_after, _trigger_settles, _retry_budget, _giveup_5xx,
-                 _timeout_releases).  These are specifications of a decision, not of a history.
+                 _giveup_502_incomplete, _timeout_releases).  These are specifications of a decision, not of a history.
 -/
 import LtVerif.Proofs.GwBound
 namespace LtVerif.C11
@@ -374,7 +374,8 @@ theorem c11_comeback_terminates (w : World) (s : Nat) :
     request whose response has not begun — (1) the tail of gw_write_error(), (2)
     gw_backend_error() from any other path, (3) gw_host_get() finding no available host —
     the request handler is dropped and the status is an error: ≥ 500, or the 400 a failed
-    create_env had already decided. -/
+    create_env had already decided.  (Response begun but nothing sent to the client yet:
+    c11_giveup_502_incomplete.) -/
 theorem c11_giveup_5xx (w : World) (s : Nat) (hs : (w.slot s).isSome) (hns : (w.auxOf s).started = false) :
     ((w.auxOf s).handler = true →
       ((writeErrorTail w s).2.auxOf s).handler = false ∧
@@ -388,6 +389,18 @@ theorem c11_giveup_5xx (w : World) (s : Nat) (hs : (w.slot s).isSome) (hns : (w.
   refine ⟨fun hh => writeErrorTail_seen w s hs hns hh, fun hh => ?_, fun hn => hostGet_none_seen w s hs hn⟩
   have E := backendError_seen w s hs hns
   exact ⟨E.1, E.2.2.1 hh⟩
+
+/-- **c11_giveup_502_incomplete** (per call): the backend fails after its response headers
+    were parsed but before lighttpd has sent a response head to the client
+    (http_response_backend_incomplete, r->resp_header_len == 0): the partial response is
+    dropped and the client gets 502, not a cut-off 200.  (Once the head has gone out —
+    streaming — no status can be sent any more; the response is aborted instead, which the
+    model records as `trunc` in `Ev.fin`.) -/
+theorem c11_giveup_502_incomplete (w : World) (s : Nat) (hs : (w.slot s).isSome)
+    (hst : (w.auxOf s).started = true) (hhs : (w.auxOf s).headSent = false) :
+    ((backendError w s).2.auxOf s).handler = false ∧ ((backendError w s).2.auxOf s).started = false ∧
+    ((backendError w s).2.auxOf s).status = 502 :=
+  backendError_incomplete_seen w s hs hst hhs
 
 /-- **c11_timeout_releases**: "… instead of hanging", per visit.  When
     gw_handle_trigger_host_timeouts() visits a request whose configured deadline has passed
@@ -510,5 +523,11 @@ example : 1 < (initWorld 1 false 3 spec2).nhosts ∧ (initWorld 1 false 3 spec2)
 example : (initWorld 2 false 3 spec2).balance = 2 ∧ (hostPick (initWorld 2 false 3 spec2) 7).1 = some 1 := by decide
 -- c11_stats_exact_partial: the labelled pools of `initWorld` meet its hypotheses
 example : LabelInj w0 ∧ StatExact w0 := ⟨labelInj_init 0 false 3 spec2, stat_init 0 false 3 spec2⟩
+
+-- c11_giveup_502_incomplete: response headers parsed, nothing sent on, then the backend fails
+private def w4 : World :=
+  { w0 with slot := fun i => if i = 0 then some { link := { hctx := true, host := some 1 },
+                                                   aux := { handler := true, started := true, status := 200 } } else none }
+example : (w4.slot 0).isSome = true ∧ (w4.auxOf 0).started = true ∧ (w4.auxOf 0).headSent = false := by decide
 
 end LtVerif.C11
